@@ -7,4 +7,7 @@ INVARIANT EmitPlain
 INVARIANT EmitPtr
 INVARIANT EmitMutants
 INVARIANT EmitBitmap
+INVARIANT EmitSvcBuilder
+INVARIANT EmitTxtBuilder
+INVARIANT EmitAlpnBuilder
 CHECK_DEADLOCK FALSE
